@@ -135,6 +135,7 @@ type seqState struct {
 	joinKey string   // the shared key column of the c03 mode
 	script  []string // when non-empty, the next steps are exactly these kinds, each on the most recent frame
 	dtHint   map[string]string // column -> the layout its date texts were written for
+	nilTag   bool // the script's column-wise Apply uses the callback that returns nil for a column starting with nil
 	negShift bool    // the script's shift moves rows up (negative periods)
 	lastBy  []string // the column list and direction of the last generated sort (reused by the script's "resort")
 	lastAsc bool
@@ -520,6 +521,8 @@ func (s *seqState) stepOnce() {
 		tag := r.Intn(8)
 		if kind == "applyrow" {
 			tag = r.Intn(5)
+		} else if s.nilTag {
+			tag = 4
 		}
 		e.Tok(kind)
 		e.Int(t)
@@ -1131,6 +1134,17 @@ func genSeq(r *Rng, mode string, steps int) *Enc {
 		// source or the result edited in place
 		s.script = []string{Pick(r, []string{"droprow", "appendrow"}), "shift", Pick(r, []string{"setcell", "fillna", "appendrow"})}
 		s.negShift = r.Chance(70)
+		if r.Chance(30) {
+			// column-wise Apply with a callback that gives up (returns nil) on a column starting with nil, then an edit
+			s.script = []string{"applycol", Pick(r, []string{"setcell", "fillna", "droprow"})}
+			s.nilTag = true
+			last := s.pool[len(s.pool)-1]
+			if ks := keysOf(last); len(ks) > 0 {
+				if c := last.Columns[Pick(r, ks)]; len(c.Data) > 0 {
+					c.Data[0] = nil
+				}
+			}
+		}
 		if steps < 3 {
 			steps = 3
 		}
